@@ -485,7 +485,7 @@ def make_jobs(tier, seed, build):
         g = CORPUS[gname]
         if tier == "quick" and gname in QUICK_SKIP:
             continue
-        for sh in tok.all_shapes_by_words(nc, g.decl):
+        for sh in tok.all_shapes_by_words(nc, g.decl, full_upto=3):
             jobs.append({"id": "corpus:%s:%s" % (gname, ",".join(sh)), "kind": "corpus", "grammar": gname, "shape": sh, "fs": "none"})
     return jobs
 
